@@ -13,7 +13,9 @@ PROP = {
                  "domtree_check_sound", "reducible_check_sound", "loops_check_sound", "back_edges_correct", "remove_unreachable_correct", "pre_order_perm", "dominator_tree_of_idoms", "looptree_check_sound",
                  "tab_ok_always", "idom_exists", "idom_unique", "dominator_tree_correct", "compute_dominators_correct", "compute_back_edges_correct",
                  "compute_dominance_frontiers_correct", "unreachable_excluded", "pre_order_search_order",
-                 "topo_correct", "topo_error_iff_cycle", "is_acyclic_iff", "post_order_correct", "is_reducible_correct", "pre_order_is_dfs", "compute_loops_correct", "compute_loop_tree_correct", "transitive_preds_correct"],
+                 "topo_correct", "topo_error_iff_cycle", "is_acyclic_iff", "post_order_correct", "is_reducible_correct", "pre_order_is_dfs", "compute_loops_correct", "compute_loop_tree_correct", "transitive_preds_correct",
+                 "compute_dfs_tree_correct", "compute_acyclic_correct", "pre_order_is_dfs_spec", "pre_order_check_sound", "post_order_check_sound",
+                 "dfs_tree_check_sound", "acyclic_graph_check_sound", "snca_numbering", "dfs_edge_lemma", "path_lemma", "sd_cand_edge", "sd_cand_up", "sdom_recurrence", "dom_anc", "idom_anc_cand", "cand_anc", "dom_between", "nca_step"],
     "rule": "every digraph on 1, 2, 3 vertices x every root (1570 cases, on three of every four positions up to position 2094); the other positions: 70% random digraphs (1-14 vertices, contiguous / sparse / random 64-bit ids, "
             "sparse/dense/spine/DAG shapes, forced self-loops, two-entry cycles, root inside a loop, unreachable components, 2.5% roots outside the graph) on which "
             "every public algorithm is run, 30% edit histories of 1-40 insert/remove operations over a pool of 2-6 ids with all public views dumped after each step; "
